@@ -23,6 +23,12 @@ type Loop struct {
 	Inductions map[*ssa.Phi]*InductionVariable
 	TripCount  SCEV
 	SCEVCache  map[ssa.Value]SCEV
+
+	// Label is the canonical name of the loop (the canonical label of its header block), set by
+	// the canonicalizer before rendering. A recurrence is a function of ITS loop's iteration
+	// count: without the label the closed forms of two loops with equal start and step were the
+	// same text, so 'a[i][j]' and 'a[j][i]' in nested 0..n loops shared a fingerprint.
+	Label string
 }
 
 func (l *Loop) String() string {
